@@ -137,10 +137,11 @@ def r2(ctx, prog):
         m = rl.values_of(f, f.nodes[j]["c"][1])
         ok = any(rl.canon(f, v).replace(" ", "") in ("($2-1)",) for v in m) and f.nodes[f.strip(f.nodes[j]["c"][0])]["k"] == "BinaryOperator" and f.nodes[f.strip(f.nodes[j]["c"][0])]["op"] == "+"
     ctx.check(R, ok, f.where(), "poffset = ((uintptr_t)p + offset) & (alignment − 1)", key="C03.R2:poffset")
-    ad = [dd for _, dd in rl.local_decl(f, lambda dd: "init" in dd and f.nodes[f.strip(dd["init"])]["k"] == "ConditionalOperator" and po and f.mentions_decl(dd["init"], po[0]["d"]))]
+    # the adjustment: the one `?:` over poffset (initialiser of a local, or the value returned by a private helper)
+    ad = [j_ for j_ in f.all(kind="ConditionalOperator") if po and f.mentions_decl(f.nodes[j_]["cond"], po[0]["d"]) and f.nodes[j_].get("macro") not in ("mi_assert_internal", "mi_assert")]
     ok = len(ad) == 1
     if ok:
-        j = f.strip(ad[0]["init"])
+        j = ad[0]
         n = f.nodes[j]
         c = rl.cmp_parts(f, n["cond"])
         ok = c is not None and c[0] == "==" and rl.var_of(f, c[1]) == po[0]["d"] and f.cv(c[2]) == 0 and f.cv(n["then"]) == 0
